@@ -387,7 +387,12 @@ def _work_random(args):
             tric = rng.random() < 0.4
             box = tuple(float('%.5f' % v) for v in rng.uniform(8, 12, 3))
             if tric:
-                box = box + (0.0, 0.0, float('%.5f' % rng.uniform(-3, 3)), 0.0, float('%.5f' % rng.uniform(-3, 3)), float('%.5f' % rng.uniform(-3, 3)))
+                # any non-empty subset of the three tilt components v2(x), v3(x), v3(y) (a monoclinic cell has only one)
+                keep = rng.random(3) < 0.5
+                if not keep.any():
+                    keep[int(rng.integers(0, 3))] = True
+                t3 = [float('%.5f' % rng.uniform(0.5, 3)) * float(rng.choice([-1, 1])) if k_ else 0.0 for k_ in keep]
+                box = box + (0.0, 0.0, t3[0], 0.0, t3[1], t3[2])
             title = str(rng.choice(['mapped by gaddle maps', '', ' ', 'Protein in water t=   0.00000', 'x' * 70]))
             wd = os.path.join(workdir, 'p%d' % os.getpid(), 'r%d' % (tid % 40))
             try:
